@@ -134,6 +134,52 @@ def op_stats(ops):
     return st
 
 
+SIB_K = 2          # sibling lists per base list
+
+
+def make_siblings(seed, idx, ai, ops, k=SIB_K):
+    """history cases for base list (seed, idx): [(label, placement, acc index, op list)].  Every sibling differs from the base
+    in ONE field of ONE operation (or in the accelerator) and is generated right after the base in the same process."""
+    import siblings
+    from ethosu.vela import api as a
+    from ethosu.vela import register_command_stream_generator as g
+
+    rng = case_rng(seed + 424243, idx)
+    accs, arch = archs()
+
+    def fits_on(ar):
+        def accept(op):
+            if isinstance(op, a.NpuDmaOperation):
+                return True
+            try:
+                g.get_arch_block_config(op, getattr(op, "block_traversal", a.NpuBlockTraversal.DEPTH_FIRST), ar)
+            except AssertionError:
+                return False
+            if isinstance(op, a.NpuPoolingOperation):
+                import c06_ops
+
+                try:
+                    return c06_ops.pool_scale_accepted(op)
+                except Exception:  # noqa: B902
+                    return False
+            return True
+        return accept
+
+    out = []
+    if rng.random() < 0.12:
+        # the same list on the neighbouring accelerator of the same family (micro-block and address width agree)
+        fam = [i for i in range(len(arch)) if i != ai and arch[i].is_ethos_u65_system == arch[ai].is_ethos_u65_system
+               and arch[i].ofm_ublock == arch[ai].ofm_ublock and arch[i].ncores == arch[ai].ncores]
+        if fam:
+            aj = rng.choice(fam)
+            if all(fits_on(arch[aj])(o) for o in ops):
+                out.append(("accelerator", "replace", aj, list(ops)))
+    opts = {"lut_slots": list(range(8))}
+    for label, place, ops2 in siblings.sibling_lists(rng, a, ops, arch[ai], k - len(out), opts=opts, accept=fits_on(arch[ai])):
+        out.append((label, place, ai, ops2))
+    return out
+
+
 def legal_batch(job):
     seed, lo, hi = job
     sys.path.insert(0, common.HERE)
@@ -141,15 +187,29 @@ def legal_batch(job):
     import c06_ops
 
     out = []
+
+    def one(idx, ai, ops, meta, sib=None):
+        words, recs, err = run_real(ai, ops)
+        e = {"idx": idx, "ai": ai, "err": err, "meta": meta, "line": None, "stats": op_stats(ops), "sib": sib}
+        if words is None:
+            if sib is not None and not (err or "").startswith("unmodelled:"):
+                # a sibling the generator rejects: the model must reject it with the same error kind
+                recs = list(recs) + [{"kwait": -1, "dwait": -1} for _ in range(len(ops) - len(recs))]
+                e["model_line"] = c06_ops.request(ai, ops, recs[:len(ops)], [], tag="c06model")
+            out.append(e)
+            return False
+        e["waits"] = sum(1 for r in recs if r["kwait"] >= 0 or r["dwait"] >= 0)
+        e["line"] = c06_ops.request(ai, ops, recs, words)
+        out.append(e)
+        return True
+
     for idx in range(lo, hi):
         ai, ops, meta = make_case(seed, idx)
-        words, recs, err = run_real(ai, ops)
-        if words is None:
-            out.append({"idx": idx, "ai": ai, "err": err, "meta": meta, "line": None, "stats": op_stats(ops)})
+        if not one(idx, ai, ops, meta):
             continue
-        waits = sum(1 for r in recs if r["kwait"] >= 0 or r["dwait"] >= 0)
-        out.append({"idx": idx, "ai": ai, "err": None, "meta": meta, "stats": op_stats(ops), "waits": waits,
-                    "line": c06_ops.request(ai, ops, recs, words)})
+        # siblings: same process, base first (the Lean side is history-free, the generator must be too)
+        for j, (label, place, aj, ops2) in enumerate(make_siblings(seed, idx, ai, ops)):
+            one(idx, aj, ops2, {"n": len(ops2), "big": meta["big"], "high": meta["high"]}, sib={"j": j, "field": label, "place": place})
     return out
 
 
@@ -449,6 +509,11 @@ def replay_mode(ck):
     if "case" in obj:
         ai, ops, _ = make_case(obj["case"]["seed"], obj["case"]["index"])
         words, recs, err = run_real(ai, ops)
+        if obj["case"].get("sibling"):
+            # the base list has just been generated (history), now its sibling
+            label, place, ai, ops = make_siblings(obj["case"]["seed"], obj["case"]["index"], ai, ops)[obj["case"]["sibling"]["j"]]
+            print("sibling:", label, place)
+            words, recs, err = run_real(ai, ops)
         if words is None:
             print("real generator:", err)
             return
@@ -468,7 +533,7 @@ def main():
     sys.path.insert(0, common.HERE)
     import c06_ops  # noqa: F401
 
-    n_legal = 200000 if ck.thorough else 3000
+    n_legal = 80000 if ck.thorough else 1800      # base lists; each brings up to SIB_K sibling lists (history)
     n_mal = 20000 if ck.thorough else 700
     n_nets = 900 if ck.thorough else 42
     jobs = min(16, os.cpu_count() or 4)
@@ -484,11 +549,21 @@ def main():
     legal = shard(legal_batch, n_legal)
     lines = [c["line"] for c in legal if c["line"] is not None]
     owners = [c for c in legal if c["line"] is not None]
+    sib_rej = [c for c in legal if c["line"] is None and c.get("sib")]
     for c in legal:
-        if c["line"] is None:
+        if c["line"] is None and not c.get("sib"):
             # the generator rejected a list that is legal by construction
             ck.violation(f"a legal operation list is rejected by the generator ({c['err']})",
                          {"case": {"seed": ck.seed, "index": c["idx"]}, "accelerator_index": c["ai"], "error": c["err"]})
+    # siblings the generator rejects (a one-field change may leave the legal set): the model must reject alike
+    sib_rej_m = [c for c in sib_rej if c.get("model_line")]
+    sib_rej_diff = []
+    for c, ans in zip(sib_rej_m, ck.model([c["model_line"] for c in sib_rej_m]) if sib_rej_m else []):
+        got = ans.split()[0][len("model="):]
+        ck.count("sibling_rejected_" + ":".join(c["err"].split(":")[:2]))
+        if got != c["err"] and got != "err:oracle":
+            sib_rej_diff.append((c, got))
+    ck.count("sibling_rejected_unmodelled", len(sib_rej) - len(sib_rej_m))
     answers = [parse(a) for a in ck.model(lines)]
     nontrivial, model_diff, spec_bad = 0, [], []
     for c, d in zip(owners, answers):
@@ -496,6 +571,10 @@ def main():
             ck.count(k, v)
         ck.count("acc_%d" % c["ai"])
         ck.count("len_%d" % c["meta"]["n"])
+        if c.get("sib"):
+            ck.count("sibling_lists")
+            ck.count("sibling_place_" + c["sib"]["place"])
+            ck.count("sibling_field_" + c["sib"]["field"].split("@")[0].split("+")[0])
         ck.count("elided_" + ("0" if d["elided"] == 0 else "1-49" if d["elided"] < 50 else "50-199" if d["elided"] < 200 else "200+"))
         if c.get("waits"):
             ck.count("lists_with_waits")
@@ -511,8 +590,10 @@ def main():
         what = ("emitted stream does not decode: " if d.get("decode") != "ok" else
                 "stream does not encode the operations it was given: " if d.get("cmp") else
                 "stream violates " + ("the single final stop" if d.get("stop") != 1 else "fit / alignment rules") + ": ")
-        ck.violation(what + d["raw"][d["raw"].find("|") + 2:][:260] + f" (accelerator index {c['ai']}, {c['meta']['n']} operations)",
-                     {"case": {"seed": ck.seed, "index": c["idx"]}, "request": c["line"][:20000], "verdict": d["raw"][:1500],
+        hist = "" if not c.get("sib") else (f"; HISTORY: sibling {c['sib']['j']} of list {c['idx']} (field {c['sib']['field']}, placement "
+                                            f"{c['sib']['place']}), generated in the same process right after its base")
+        ck.violation(what + d["raw"][d["raw"].find("|") + 2:][:260] + f" (accelerator index {c['ai']}, {c['meta']['n']} operations)" + hist,
+                     {"case": {"seed": ck.seed, "index": c["idx"], "sibling": c.get("sib")}, "request": c["line"][:20000], "verdict": d["raw"][:1500],
                       "how_to_replay": "./check C06 --replay <this file> regenerates the list from (seed, index), runs the real "
                                        "generator and prints the Lean verdict"})
     # ---- (b) streams of compiled networks --------------------------------------------------------
@@ -611,6 +692,11 @@ def main():
         ck.violation(f"correspondence Model/Emit.lean vs register_command_stream_generator broken on {len(model_diff)} streams: {d['model']}",
                      {"correspondence": "c06 model words", "case": {"seed": ck.seed, "index": c["idx"]}, "model_verdict": d["model"],
                       "request": c["line"][:20000]}, found_input=False)
+    if sib_rej_diff and not any(v[2] for v in ck.violations):
+        c, got = sib_rej_diff[0]
+        ck.violation(f"model and generator disagree on rejecting {len(sib_rej_diff)} sibling lists (field {c['sib']['field']}): generator {c['err']}, model {got}",
+                     {"correspondence": "c06model (siblings)", "case": {"seed": ck.seed, "index": c["idx"], "sibling": c["sib"]},
+                      "request": c["model_line"][:20000], "real": c["err"], "model": got}, found_input=False)
     if mal_diff and not any(v[2] for v in ck.violations):
         m, got = mal_diff[0]
         ck.violation(f"model and generator disagree on rejecting {len(mal_diff)} malformed lists: defect {m['defect']}: generator {m['real']}, model {got}",
@@ -628,7 +714,7 @@ def main():
         "rule": "case = one operation list (random legal list, or the NpuOperation list of one compiled network's stream) through the real "
                 "generator and the Lean decoder/comparator; non-trivial when >= 1 register write was elided; lists are distinct by "
                 "(seed, index) / (profile, index, stream)",
-        "legal_lists": len(lines), "pipeline_streams": len(plines), "pipeline_operations": p_ops, "malformed_lists": len(mal),
+        "legal_lists": len(lines), "sibling_lists": ck.counters.get("sibling_lists", 0), "pipeline_streams": len(plines), "pipeline_operations": p_ops, "malformed_lists": len(mal),
         "model_word_disagreements": len(model_diff), "malformed_disagreements": len(mal_diff), "spec_rejections": len(spec_bad),
         "exhaustive": False, **hl_tot,
         "partial": "OFM/OPA/OPB scale values, op_to_scale, SHRAM layout, BLOCKDEP and wait watermarks are taken from the run "
